@@ -293,15 +293,17 @@ def run_case_inner(body, spec, complex_=False, validate=False, max_paths=2000, s
                 res.discharged += len(S.obl) - len(bad)
                 # report the first failing obligation (one replay per path keeps runs short)
                 name, f = bad[0]
-                _counterexample(res, body, spec, complex_, c, S, name, f, also=[n for n, _ in bad[1:6]])
+                _counterexample(res, body, spec, complex_, c, S, name, f, also=[n for n, _ in bad[1:6]], model=m)
         for name, f in S.canaries:
             res.canaries += 1
             r = c.solver.check(z3.Not(f))
             res.queries += 1
             if r == z3.sat:
                 res.canaries_ok += 1
+            elif r == z3.unsat:
+                res.harness_errors.append(f"canary {name} was proved: the harness is vacuous on this path")
             else:
-                res.harness_errors.append(f"canary {name} not falsifiable ({r})")
+                res.notes["canary-unknown"] = res.notes.get("canary-unknown", 0) + 1
         if validate and S.lhs_terms and not res.violations:
             _validate_backend(res, body, spec, complex_, c, S, seed)
         if want_sample and res.sample is None and S.obl:
@@ -320,8 +322,17 @@ def _short(spec):
     return s if len(s) < 600 else s[:600] + "..."
 
 
-def _counterexample(res, body, spec, complex_, c, S, name, f, also=()):
+def _counterexample(res, body, spec, complex_, c, S, name, f, also=(), model=None):
     names = sorted(set(S.varnames))
+    if model is not None:
+        # the model of the deciding query itself; a bounded one is searched only if it does not replay
+        vals = _model_values(model, names)
+        if max([abs(v) for v in vals.values()] or [0]) < 1e6:
+            failed, structural, err, Sn = replay_numeric(body, spec, complex_, vals)
+            if failed or structural or err is not None:
+                _replay_and_record(res, body, spec, complex_, c, S, kind="value", name=name,
+                                   detail=f"solver model falsifies {name}; also failing: {list(also)}", values=vals)
+                return
     m = _bounded_model(c.solver, z3.Not(f), names)
     if m is None:
         c.solver.push()
